@@ -2,6 +2,7 @@
    Statements only; proofs are in Proofs/MintThm.v. *)
 From Hub Require Import Base.Prelude Base.Arith Model.Types Model.Keeper Model.Handlers Model.Hooks Model.Step.
 From Hub Require Import Proofs.Tactics Proofs.Sorting Proofs.Frames Proofs.MintThm.
+From Hub Require Import Gen.Wiring Proofs.WiringThm.
 
 (* After the begin-of-block step at block time t: every entry with a timestamp at or before t
    has left the schedule, every later entry is untouched; if an entry was due, the minting
@@ -66,8 +67,17 @@ Example C15_nonvacuous :
   end.
 Proof. vm_compute. split; reflexivity. Qed.
 
+Section wiring.
+Local Open Scope string_scope.
+(* app wiring (regenerated from app/module.go on every run): the schedule hook runs before the SDK mint module's
+   begin-blocker, which therefore mints with the parameters of the entry that became due in this very block *)
+Theorem C15_schedule_hook_runs_before_sdk_mint : runs_before "customminttypes.ModuleName" "minttypes.ModuleName" begin_blockers.
+Proof. exact custommint_before_mint. Qed.
+End wiring.
+
 Print Assumptions C15_begin_block.
 Print Assumptions C15_only_begin_block_applies.
 Print Assumptions C15_applied_at_most_once.
 Print Assumptions C15_never_halts.
 Print Assumptions C15_genesis.
+Print Assumptions C15_schedule_hook_runs_before_sdk_mint.
